@@ -291,11 +291,11 @@ func (ex *Exec) callContractSig(st *State, fr *Frame, cs *FuncSpec, sig *types.S
 			ctx.tparms[l.At(i).Obj().Name()] = l.At(i)
 		}
 	}
-	addTP(sig.TypeParams())
-	addTP(sig.RecvTypeParams())
 	if n, ok := types.Unalias(derefType(recvT)).(*types.Named); ok && n != nil {
 		addTP(n.Origin().TypeParams())
 	}
+	addTP(sig.TypeParams())
+	addTP(sig.RecvTypeParams())
 	i := 0
 	if recvT != nil {
 		name := cs.RecvName
@@ -974,41 +974,86 @@ func (ex *Exec) mapHas(st *State, m *Term, mt *types.Map, k *Term) *Term {
 	return And(Neq(m, IntLit(0)), Select(Select(ex.mapDomArr(st, mt), m), k))
 }
 
+// mapSize: len(m) is the cardinality of the key set; card is an uninterpreted
+// function of the key-set array with the finite-set axioms below (instantiated by triggers).
 func (ex *Exec) mapSize(st *State, m *Term, mt *types.Map) *Term {
-	_, sk := ex.mapKeys(mt)
-	return Select(ex.heapGet(st, sk, ArraySort(SRef, ex.env.IntS())), m)
+	ks := ex.env.scalarSort(mt.Key())
+	return ex.card(Select(ex.mapDomArr(st, mt), m), ks)
+}
+
+func (ex *Exec) card(dom *Term, ks Sort) *Term {
+	is := ex.env.IntS()
+	ds := ArraySort(ks, SBool)
+	name := "card_" + sanitizeName(string(ks))
+	wit := "cardwit_" + sanitizeName(string(ks))
+	if _, ok := ex.env.d.Funcs[name]; !ok {
+		ex.env.d.Func(name, is, ds)
+		ex.env.d.Func(wit, ks, ds)
+		d := Sym("d!cd", ds)
+		k := Sym("k!cd", ks)
+		cd := func(x *Term) *Term { return App(name, is, x) }
+		one, zero := ex.intConst(1), ex.intConst(0)
+		ex.trusted["finite-set cardinality axioms for len(map)"] = true
+		ex.addAxiom(Forall([]*Term{d}, And(ex.sle(zero, cd(d)), Implies(ex.slt(zero, cd(d)), Select(d, App(wit, ks, d)))), []*Term{cd(d)}))
+		st1 := Store(d, k, TTrue)
+		ex.addAxiom(Forall([]*Term{d, k}, Eq(cd(st1), ex.iadd(cd(d), Ite(Select(d, k), zero, one))), []*Term{cd(st1)}))
+		st0 := Store(d, k, TFalse)
+		ex.addAxiom(Forall([]*Term{d, k}, Eq(cd(st0), ex.isub(cd(d), Ite(Select(d, k), one, zero))), []*Term{cd(st0)}))
+		ex.addAxiom(Eq(cd(ConstArray(ds, TFalse)), zero))
+		ex.addAxiom(Forall([]*Term{d, k}, Implies(Select(d, k), ex.sle(one, cd(d))), []*Term{Select(d, k), cd(d)}))
+	}
+	return App(name, is, dom)
 }
 
 func (ex *Exec) mapValKey(mt *types.Map, leafPath string) string {
 	return "Mval " + ex.env.typeKey(mt) + " " + leafPath
 }
 
+// mapLookup: m[k].  Invariant of the encoding: the value arrays hold the zero
+// value for absent keys (delete and make write zeros; havoc and the initial
+// heap carry it as a quantified fact), so no case split is needed here.
 func (ex *Exec) mapLookup(st *State, m *Term, mt *types.Map, k *Term) *Val {
-	has := ex.mapHas(st, m, mt, k)
 	ks := ex.env.scalarSort(mt.Key())
-	if pt := ex.structPtr(mt.Elem()); pt != nil {
-		// typing of the initial heap: map values of pointer type point to objects of that type
-		h0 := ex.heap0(ex.mapValKey(mt, ""), ArraySort(SRef, ArraySort(ks, SRef)))
-		x := Sym("m!mv", SRef)
-		kk := Sym("k!mv", ks)
-		v := Select(Select(h0, x), kk)
-		ex.addAxiom(Forall([]*Term{x, kk}, Or(Eq(v, IntLit(0)), Eq(ex.dtype(v), ex.typeTag(pt))), []*Term{v}))
-	}
+	ex.mapZeroAxioms(mt)
 	return ex.buildVal(mt.Elem(), "", func(l Leaf) *Term {
 		arr := ex.heapGet(st, ex.mapValKey(mt, l.Path), ArraySort(SRef, ArraySort(ks, l.Sort)))
-		z := ex.env.zeroLeaf(l)
-		if l.Role == "arr" {
-			z = IntLit(0)
-		}
-		return Ite(has, Select(Select(arr, m), k), z)
+		return Select(Select(arr, m), k)
 	})
 }
 
-func (ex *Exec) mapFacts(st *State, m *Term, mt *types.Map, k *Term) {
-	sz := ex.mapSize(st, m, mt)
-	st.assume(ex.sle(ex.intConst(0), sz))
-	st.assume(Implies(ex.mapHas(st, m, mt, k), ex.sle(ex.intConst(1), sz)))
+func (ex *Exec) mapZero(l Leaf) *Term {
+	if l.Role == "arr" {
+		return IntLit(0)
+	}
+	return ex.env.zeroLeaf(l)
 }
+
+// mapZeroAxioms: typing facts of the initial heap for a map type (once per type).
+func (ex *Exec) mapZeroAxioms(mt *types.Map) {
+	tk := ex.env.typeKey(mt)
+	if ex.recDefs["mapzero "+tk] {
+		return
+	}
+	ex.recDefs["mapzero "+tk] = true
+	ks := ex.env.scalarSort(mt.Key())
+	dk, _ := ex.mapKeys(mt)
+	d0 := ex.heap0(dk, ArraySort(SRef, ArraySort(ks, SBool)))
+	x := Sym("m!mz", SRef)
+	kk := Sym("k!mz", ks)
+	for _, l := range ex.env.leaves(mt.Elem()) {
+		h0 := ex.heap0(ex.mapValKey(mt, l.Path), ArraySort(SRef, ArraySort(ks, l.Sort)))
+		v := Select(Select(h0, x), kk)
+		body := Implies(Not(Select(Select(d0, x), kk)), Eq(v, ex.mapZero(l)))
+		if pt := ex.structPtr(l.Type); pt != nil && l.Path == "" {
+			body = And(body, Or(Eq(v, IntLit(0)), Eq(ex.dtype(v), ex.typeTag(pt))))
+		}
+		ex.addAxiom(Forall([]*Term{x, kk}, body, []*Term{v}))
+	}
+	// the nil map is empty
+	ex.addAxiom(Forall([]*Term{kk}, Not(Select(Select(d0, IntLit(0)), kk)), []*Term{Select(Select(d0, IntLit(0)), kk)}))
+}
+
+func (ex *Exec) mapFacts(st *State, m *Term, mt *types.Map, k *Term) {}
 
 func (ex *Exec) lookup(st *State, x *ssa.Lookup) *Val {
 	t := ex.env.resolve(x.X.Type())
@@ -1039,12 +1084,25 @@ func (ex *Exec) lookup(st *State, x *ssa.Lookup) *Val {
 func (ex *Exec) makeMap(st *State, x *ssa.MakeMap) *Val {
 	mt := ex.env.resolve(x.Type()).Underlying().(*types.Map)
 	ref := ex.newRef(st, "map", ex.env.typeKey(mt))
-	dk, sk := ex.mapKeys(mt)
+	dk, _ := ex.mapKeys(mt)
 	ks := ex.env.scalarSort(mt.Key())
 	dom := ex.heapGet(st, dk, ArraySort(SRef, ArraySort(ks, SBool)))
 	st.heap[dk] = Store(dom, ref, ConstArray(ArraySort(ks, SBool), TFalse))
-	sz := ex.heapGet(st, sk, ArraySort(SRef, ex.env.IntS()))
-	st.heap[sk] = Store(sz, ref, ex.intConst(0))
+	ex.mapZeroAxioms(mt)
+	for _, l := range ex.env.leaves(mt.Elem()) {
+		key := ex.mapValKey(mt, l.Path)
+		arr := ex.heapGet(st, key, ArraySort(SRef, ArraySort(ks, l.Sort)))
+		z := ex.mapZero(l)
+		var ca *Term
+		if z.IsLit() || z.IsTrue() || z.IsFalse() {
+			ca = ConstArray(ArraySort(ks, l.Sort), z)
+		} else {
+			ca = ex.fresh("mzeros", ArraySort(ks, l.Sort))
+			i := Sym(fmt.Sprintf("k!mzz%d", ex.nfresh), ks)
+			st.assume(Forall([]*Term{i}, Eq(Select(ca, i), z), []*Term{Select(ca, i)}))
+		}
+		st.heap[key] = Store(arr, ref, ca)
+	}
 	return scalar(ref)
 }
 
@@ -1061,13 +1119,10 @@ func (ex *Exec) mapUpdate(st *State, x *ssa.MapUpdate) {
 }
 
 func (ex *Exec) mapStore(st *State, m *Term, mt *types.Map, k *Term, v *Val) {
-	dk, sk := ex.mapKeys(mt)
+	dk, _ := ex.mapKeys(mt)
 	ks := ex.env.scalarSort(mt.Key())
 	dom := ex.heapGet(st, dk, ArraySort(SRef, ArraySort(ks, SBool)))
-	had := Select(Select(dom, m), k)
 	st.heap[dk] = Store(dom, m, Store(Select(dom, m), k, TTrue))
-	sz := ex.heapGet(st, sk, ArraySort(SRef, ex.env.IntS()))
-	st.heap[sk] = Store(sz, m, Ite(had, Select(sz, m), ex.iadd(Select(sz, m), ex.intConst(1))))
 	ex.flatten(mt.Elem(), v, "", func(l Leaf, t *Term) {
 		key := ex.mapValKey(mt, l.Path)
 		arr := ex.heapGet(st, key, ArraySort(SRef, ArraySort(ks, l.Sort)))
@@ -1076,29 +1131,34 @@ func (ex *Exec) mapStore(st *State, m *Term, mt *types.Map, k *Term, v *Val) {
 }
 
 func (ex *Exec) mapDelete(st *State, m *Term, mt *types.Map, k *Term) {
-	dk, sk := ex.mapKeys(mt)
+	dk, _ := ex.mapKeys(mt)
 	ks := ex.env.scalarSort(mt.Key())
-	ex.mapFacts(st, m, mt, k)
 	dom := ex.heapGet(st, dk, ArraySort(SRef, ArraySort(ks, SBool)))
-	had := ex.mapHas(st, m, mt, k)
 	st.heap[dk] = Store(dom, m, Store(Select(dom, m), k, TFalse))
-	sz := ex.heapGet(st, sk, ArraySort(SRef, ex.env.IntS()))
-	st.heap[sk] = Store(sz, m, Ite(had, ex.isub(Select(sz, m), ex.intConst(1)), Select(sz, m)))
-}
-
-func (ex *Exec) havocMap(st *State, mt *types.Map, ref *Term) {
-	dk, sk := ex.mapKeys(mt)
-	ks := ex.env.scalarSort(mt.Key())
-	dom := ex.heapGet(st, dk, ArraySort(SRef, ArraySort(ks, SBool)))
-	st.heap[dk] = Store(dom, ref, ex.fresh("hv_dom", ArraySort(ks, SBool)))
-	sz := ex.heapGet(st, sk, ArraySort(SRef, ex.env.IntS()))
-	nsz := ex.fresh("hv_size", ex.env.IntS())
-	st.assume(ex.sle(ex.intConst(0), nsz))
-	st.heap[sk] = Store(sz, ref, nsz)
 	for _, l := range ex.env.leaves(mt.Elem()) {
 		key := ex.mapValKey(mt, l.Path)
 		arr := ex.heapGet(st, key, ArraySort(SRef, ArraySort(ks, l.Sort)))
-		st.heap[key] = Store(arr, ref, ex.fresh("hv_val", ArraySort(ks, l.Sort)))
+		st.heap[key] = Store(arr, m, Store(Select(arr, m), k, ex.mapZero(l)))
+	}
+}
+
+func (ex *Exec) havocMap(st *State, mt *types.Map, ref *Term) {
+	dk, _ := ex.mapKeys(mt)
+	ks := ex.env.scalarSort(mt.Key())
+	dom := ex.heapGet(st, dk, ArraySort(SRef, ArraySort(ks, SBool)))
+	st.heap[dk] = Store(dom, ref, ex.fresh("hv_dom", ArraySort(ks, SBool)))
+	ndom := Select(st.heap[dk], ref)
+	for _, l := range ex.env.leaves(mt.Elem()) {
+		key := ex.mapValKey(mt, l.Path)
+		arr := ex.heapGet(st, key, ArraySort(SRef, ArraySort(ks, l.Sort)))
+		nv := ex.fresh("hv_val", ArraySort(ks, l.Sort))
+		i := Sym(fmt.Sprintf("k!hvm%d", ex.nfresh), ks)
+		body := Implies(Not(Select(ndom, i)), Eq(Select(nv, i), ex.mapZero(l)))
+		if pt := ex.structPtr(l.Type); pt != nil && l.Path == "" {
+			body = And(body, Or(Eq(Select(nv, i), IntLit(0)), Eq(ex.dtype(Select(nv, i)), ex.typeTag(pt))))
+		}
+		st.assume(Forall([]*Term{i}, body, []*Term{Select(nv, i)}))
+		st.heap[key] = Store(arr, ref, nv)
 	}
 }
 
